@@ -411,6 +411,9 @@ func runCheck(id, tier string, writeBaseline bool) int {
 		fmt.Println(l)
 	}
 	undecided = append(undecided, prefixAll("UNPROVEN (also on the unchanged tree; outside the claim): ", unproven)...)
+	if tier == "thorough" && !writeBaseline {
+		runCorpus(id)
+	}
 	writeEvidence(id, tier, seed, t0, results, obls, nDis, nBounded, len(violations), knownLines, undecided, loadS, genS, specs)
 	fmt.Printf("govc: property=%s tier=%s functions=%d obligations=%d discharged=%d violations=%d known=%d undecided=%d wall=%.1fs\n",
 		id, tier, len(fspecs), len(obls), nDis, len(violations), len(knownLines), len(undecided), time.Since(t0).Seconds())
@@ -565,6 +568,7 @@ func writeEvidence(id, tier string, seed int, t0 time.Time, results []*FuncResul
 		"load_s":                    round3(loadS),
 		"generate_s":                round3(genS),
 		"bounded_obligations":       nBounded,
+		"selftest_corpus":           corpusResults,
 		"not_discharged":            failing,
 		"known_findings":            known,
 		"undecided":                 undecided,
